@@ -209,8 +209,19 @@ class Prob:
         from nucs.problems.problem import Problem
 
         p = Problem(list(self.shr), list(self.idx), list(self.off))
-        for v, a, ps in self.props:
-            p.add_propagator((list(v), alg_index(a), list(ps)))
+        # both posting APIs are exercised: one by one, in bulk, or a mixture (chosen deterministically from the problem)
+        triples = [(list(v), alg_index(a), list(ps)) for v, a, ps in self.props]
+        mode = (len(triples) + sum(len(v) for v, _, _ in triples) + len(self.shr)) % 3
+        if mode == 0:
+            for t in triples:
+                p.add_propagator(t)
+        elif mode == 1:
+            p.add_propagators(triples)
+        else:
+            h = len(triples) // 2
+            p.add_propagators(triples[:h])
+            for t in triples[h:]:
+                p.add_propagator(t)
         return p
 
     def enc(self):
